@@ -117,6 +117,11 @@ class SMol:
         self.log.append((self.idx, 'write_pysam', None))
         out.append(self.idx)
 
+    valid = True
+
+    def is_valid(self):
+        return self.valid
+
 
 def make_iter_class(mols, record):
     class It:
@@ -170,4 +175,64 @@ def check_tagging_task(run_tagging_task, specs, region):
         steps = [s for (j, s, k) in log if j == i]
         if steps != ['set_meta', 'write_tags', 'write_pysam']:
             return 'write_order'
+    return None
+
+
+def check_tagging_job(TG, counts, valids):
+    """REAL run_tagging_tasks (job = list of tasks) + real run_tagging_task, environment stubbed.
+    counts[i] = number of molecules task i yields; valids = validity flag per molecule (rejects are written too by default)."""
+    import contextlib
+    out, removed, created = [], [], []
+
+    class AF:
+        def __init__(self, path, *a, **k):
+            pass
+
+        def __enter__(self):
+            return self
+
+        def __exit__(self, *a):
+            return False
+
+    @contextlib.contextmanager
+    def sorted_bam_file(path, **kw):
+        created.append(path)
+        yield out
+    saved = (TG.AlignmentFile, TG.sorted_bam_file, TG.remove, TG.os)
+
+    class P:
+        @staticmethod
+        def exists(p):
+            return False
+
+    class OS:
+        path = P
+    TG.AlignmentFile, TG.sorted_bam_file, TG.remove, TG.os = AF, sorted_bam_file, (lambda p: removed.append(p)), OS
+    try:
+        tasks = []
+        k = 0
+        for c in counts:
+            mols = []
+            for j in range(c):
+                m = SMol(k, ('c0', 5), 'rg', [])
+                m.valid = valids[k]
+                mols.append(m)
+                k += 1
+            tasks.append({'molecule_iterator_class': make_iter_class(mols, {}), 'molecule_iterator_args': {}})
+        path, meta = TG.run_tagging_tasks((('in.bam', 'tmp', None), tasks))
+    finally:
+        TG.AlignmentFile, TG.sorted_bam_file, TG.remove, TG.os = saved
+    written = k
+    if out != list(range(written)):
+        return 'job_records'
+    if written > 0:
+        if path is None or path != created[0]:
+            return 'job_output_discarded'
+        if any(r == path or r == path + '.bai' for r in removed):
+            return 'job_output_removed'
+    else:
+        if path is not None:
+            return 'empty_job_kept'
+    if meta.get('total_molecules') != written:
+        return 'job_total'
     return None
